@@ -6,6 +6,7 @@ import (
 	"sort"
 	"strings"
 	"testing"
+	eg "verifharness/exprgen"
 
 	"pgregory.net/rapid"
 	"verifharness/hx"
@@ -69,6 +70,54 @@ func init() {
 }
 
 var c03Lone = []string{"${{ github. }}", "${{ }}", "${{ 'x }}", "${{ a b }}"}
+
+// c03GenMalformed derives a placeholder the reference grammar rejects from a generated well-formed
+// expression by one token edit (delete, insert, replace, extra separator next to a bracket).
+func c03GenMalformed(rt *rapid.T) string {
+	for try := 0; try < 8; try++ {
+		n := eg.GenSyntax(rt, rapid.IntRange(1, 3).Draw(rt, "depth"))
+		p := &eg.Printer{WS: func() string { return " " }}
+		p.Print(n)
+		toks := append([]string(nil), p.Tokens()...)
+		if len(toks) == 0 {
+			continue
+		}
+		i := rapid.IntRange(0, len(toks)-1).Draw(rt, "at")
+		ins := rapid.SampledFrom([]string{",", ")", "(", "]", "[", ".", "==", "&&", "!", "a", "1", "'s'", "*"}).Draw(rt, "tok")
+		switch rapid.IntRange(0, 4).Draw(rt, "edit") {
+		case 0:
+			toks = append(toks[:i:i], toks[i+1:]...)
+		case 1:
+			toks = append(toks[:i:i], append([]string{ins}, toks[i:]...)...)
+		case 2:
+			toks[i] = ins
+		default:
+			// an extra comma directly inside a bracket pair: f(a, ) / f(, a) / x[1, ]
+			var cand []int
+			for j, t := range toks {
+				if t == ")" || t == "]" {
+					cand = append(cand, j)
+				} else if (t == "(" || t == "[") && j+1 < len(toks) {
+					cand = append(cand, j+1)
+				}
+			}
+			if len(cand) == 0 {
+				continue
+			}
+			j := cand[rapid.IntRange(0, len(cand)-1).Draw(rt, "bracket")]
+			toks = append(toks[:j:j], append([]string{","}, toks[j:]...)...)
+		}
+		src := strings.Join(toks, " ")
+		if strings.Contains(src, "}}") || strings.Contains(src, "${{") || !isASCII(src) || strings.ContainsAny(src, "\n\r\t\"") {
+			continue
+		}
+		if _, ok := eg.Parse(src + "}}"); !ok {
+			return "${{ " + src + " }}"
+		}
+	}
+	return "${{ f(a, ) }}"
+}
+
 var c03Embedded = []string{"a ${{ github. }} b", "${{ 'ok' }} ${{ 'x }}", "x }} y ${{ github. }}", "{\"a\":{\"b\":1}} ${{ a b }}", "${{ 'ok' }} }} ${{ 'x }}"}
 
 // scalarLeaves lists the value leaves (mapping values and sequence elements) of a tree.
@@ -84,7 +133,7 @@ func scalarLeaves(root *ye.Node) []*ye.Node {
 
 func TestC03(t *testing.T) {
 	hx.Main(t, "C03", func(r *hx.Run) {
-		r.Rule = "clean workflow from the workflow-syntax model (all sections incl. rare ones and expression-valued forms; random layout and quoting) x EVERY scalar value leaf x malformed placeholder forms {${{ github. }}, ${{ }}, ${{ 'x }}, ${{ a b }}; for untyped string leaves also embedded in text}. Oracle from the model: >=1 diagnostic on the leaf's line within its column span; for template leaves an expression syntax diagnostic. Every (workflow, leaf, form) is non-trivial; distinct = (key path with sibling-configuration class, form)."
+		r.Rule = "clean workflow from the workflow-syntax model (all sections incl. rare ones and expression-valued forms; random layout and quoting) x EVERY scalar value leaf x malformed placeholder forms {${{ github. }}, ${{ }}, ${{ 'x }}, ${{ a b }}; for untyped string leaves also embedded in text} plus 3 placeholders per workflow derived from generated well-formed expressions by one token edit (delete / insert / replace / extra comma inside a bracket pair) which the reference grammar of C04 rejects. Oracle from the model: >=1 diagnostic on the leaf's line within its column span; for template leaves an expression syntax diagnostic. Every (workflow, leaf, form) is non-trivial; distinct = (key path with sibling-configuration class, form)."
 		r.Assumptions = []string{"workflow-syntax model in harness/wf (written from GitHub's syntax reference)", "only single-line scalars are replaced", "exempt from the template clause: event names, input type, permissions values, secrets: inherit"}
 		covered := map[string]int64{}
 		unclean := 0
@@ -105,11 +154,12 @@ func TestC03(t *testing.T) {
 				}
 				return
 			}
+			generated := []string{c03GenMalformed(rt), c03GenMalformed(rt), c03GenMalformed(rt)}
 			for _, lf := range scalarLeaves(w.Root) {
 				info := wf.LeafOf(lf)
-				forms := c03Lone
+				forms := append(append([]string{}, c03Lone...), generated...)
 				if info.Typed == "" && info.Exempt == "" {
-					forms = append(append([]string{}, c03Lone...), c03Embedded...)
+					forms = append(forms, c03Embedded...)
 				}
 				oldVal, oldStyle, oldRaw := lf.Val, lf.Style, lf.Raw
 				for fi, form := range forms {
@@ -125,7 +175,12 @@ func TestC03(t *testing.T) {
 					if info.Config != "" {
 						cls += "[" + info.Config + "]"
 					}
-					r.NT(cls, form)
+					if fi >= len(c03Lone) && fi < len(c03Lone)+len(generated) {
+						r.NT(cls, "generated")
+						r.Class("generated-malformed-form")
+					} else {
+						r.NT(cls, form)
+					}
 					covered[cls]++
 					if k, m := checkPlaceholder(c); k != "" {
 						lf.Val, lf.Style, lf.Raw = oldVal, oldStyle, oldRaw
